@@ -90,7 +90,8 @@ static void prop(Ctx &c) {
     }
     uint64_t bmode = c.draw(4);
     if (bmode == 0 || good.body.empty()) { body = c.bytes(c.skewed(3000)); rd << "body=noise[" << body.size() << "]"; }
-    else if (bmode == 1) { body = good.body; size_t nm = c.draw(3); for (size_t i = 0; i < nm; i++) gen::mutate_raw(c, body, 0); rd << "body=correct+" << nm << "mutations"; }
+    else if (bmode == 1) { body = good.body; size_t nm = c.draw(3); for (size_t i = 0; i < nm; i++) gen::mutate_raw(c, body, 0); rd << "body=correct+" << nm << "mutations";
+        if (c.gver >= 4 && c.rarely(3) && body.size() > 2) { body.resize(1 + c.draw(body.size() - 2)); rd << "+broken-off-at-" << body.size(); c.label("response-broken-off"); } }
     else {
         rd << "body=structured"; size_t np = 1 + c.draw(5); auto add = [&](const std::string &t) { body.insert(body.end(), t.begin(), t.end()); };
         for (size_t p = 0; p < np; p++) {
@@ -141,7 +142,10 @@ static void prop(Ctx &c) {
     // second round on the same context: reset, fresh request, well-formed response
     if (c.rarely(3)) {
         (void)!zck_dl_set_range(d, nullptr); if (r) zck_range_free(&r); r = nullptr;
-        (void)!zck_clear_error(z); zck_reset_failed_chunks(z); zck_dl_reset(d);
+        // between the two requests the caller may look at the target again (a rescan moves the descriptor's position)
+        bool rescan = c.gver >= 4 && c.boolean(); int order = rescan ? (int)c.draw(1) : 0;
+        (void)!zck_clear_error(z); if (rescan && order == 0) { (void)!zck_find_valid_chunks(z); (void)!zck_clear_error(z); }
+        zck_reset_failed_chunks(z); zck_dl_reset(d); if (rescan && order == 1) { (void)!zck_find_valid_chunks(z); (void)!zck_clear_error(z); zck_reset_failed_chunks(z); } if (rescan) c.label("rescan-between-requests");
         if (passthrough) { (void)!zck_dl_set_write_cb(d, passthrough_cb); (void)!zck_dl_set_write_data(d, &user_calls); }
         r = zck_get_missing_range(z, limit);
         if (r && zck_dl_set_range(d, r) && zck_get_range_count(r) > 0) {
